@@ -836,7 +836,7 @@ def build_session(rng, opts=None, workdir=None):
     force = [dict() for _ in range(nds)]
     if want_leaf in ("cat_roi", "cat_2d", "cat_multirange", "category"):
         shapes[0] = (rng.randint(2, 6),)
-        force[0]["cat"] = True
+        force[0]["cat"] = opts.get("cat_mode", True)
     if want_link == "JoinLink" or want_join:
         for i in pair:
             shapes[i] = (rng.randint(2, 6),)
@@ -875,6 +875,11 @@ def build_session(rng, opts=None, workdir=None):
             edges = [pair]
         if want_join:
             edges = [e for e in edges if e != pair]
+        if history == "remove_last":
+            # the leaving dataset takes part in the key join / JoinLink only: removing a dataset also drops its links
+            # from the collection while the removed Data keeps stale link-derived access, so a mask that travels
+            # join -> removed dataset -> dropped link exists before the save by accident (C03's subject, not C02's)
+            edges = [e for e in edges if (nds - 1) not in e or (e == pair and want_link == "JoinLink")]
         for n_edge, (i, j) in enumerate(edges):
             if rng.random() < 0.5:
                 i, j = j, i
